@@ -131,8 +131,11 @@ func drawN(t *rapid.T, templates int, big bool) int {
 		return templates
 	case k < 88:
 		return rapid.SampledFrom([]int{0, 1, 2, 63, 64, 65, 99, 100, 101, 127, 128, 129, 192, 200}).Draw(t, "n")
-	case k < 97 || !big:
+	case k < 96 || !big:
 		return rapid.IntRange(130, 3000).Draw(t, "n")
+	case k == 96:
+		// far more batches than any fixed reorder window: one slow parser worker may be overtaken by hundreds of batches
+		return rapid.SampledFrom([]int{30000, 60000}).Draw(t, "n")
 	default:
 		return rapid.SampledFrom([]int{8191, 8192, 8193, 8192 + 63, 8192 + 64, 8192 + 65, 8192 + 128}).Draw(t, "n")
 	}
